@@ -497,7 +497,10 @@ impl Gen {
                 12 => m.executors.push(self.rng.pick(&["x", "ERIN", "zed"]).to_string()),
                 _ => {
                     m.bid_fee_rate = Some("".into());
-                    m.bid_fee_account = Some(self.rng.pick(&["", "frank"]).to_string());
+                    m.bid_fee_account = Some(self.rng.pick(&["", "frank", " "]).to_string());
+                    if self.rng.pct(15) {
+                        m.bid_fee_rate = Some(" ".into());
+                    }
                 }
             }
         }
@@ -547,7 +550,10 @@ impl Gen {
 
     fn odd_id(&mut self, w: &World, good: &str) -> String {
         let plain: String = good.chars().filter(|c| *c != '-').collect();
-        match self.rng.below(9) {
+        match self.rng.below(11) {
+            // padded with white space (before, after): not an id
+            9 => format!("{}{}", good, self.rng.pick(&[" ", "\n", "\t", "  "])),
+            10 => format!(" {}", good),
             0 => plain,
             1 => good.to_uppercase(),
             2 => format!("{{{}}}", good),
@@ -949,7 +955,11 @@ impl Gen {
                 0 => (cur.as_ref().map(|f| f.rate.clone()).or(Some("0.01".into())), Some(acct)),
                 1 => (cur.as_ref().map(|f| respell(r, &f.rate)).or(Some("0.02".into())), Some(acct)),
                 2 => (Some(r.pick(&["0.003", "0.01", "0.25", "0.5", "0"]).to_string()), Some(acct)),
-                3 => (Some("".into()), Some("".into())),
+                3 => {
+                    // the clearing pair, or almost: blank (whitespace-only) strings are not empty
+                    let (a, b) = *r.pick(&[("", ""), ("", ""), (" ", " "), (" ", ""), ("", " "), ("\t", "\n")]);
+                    (Some(a.into()), Some(b.into()))
+                }
                 4 => (Some("0.01".into()), None),
                 5 => (None, Some(acct)),
                 6 => (Some(r.pick(&["abc", "", "1e-2"]).to_string()), Some(acct)),
